@@ -27,7 +27,9 @@ pub fn ref_identical(a: &T, b: &T) -> bool {
     if class(a.kind) != 0 {
         return true;
     }
-    if a.kind != b.kind || a.children.len() != b.children.len() {
+    // (two present elements with equal digests are the same element whatever case holds them: a known value n
+    // and a leaf #6.40000(n) have the same digest image)
+    if a.children.len() != b.children.len() {
         return false;
     }
     a.children.iter().zip(b.children.iter()).all(|(x, y)| ref_identical(x, y))
@@ -52,6 +54,13 @@ pub fn run(ctx: &mut Ctx) {
             e
         };
         let key = fresh_key(&mut rng);
+        // every 25th case: an envelope holding an assertion decorated twice without wrapping
+        let e = if case % 25 == 6 {
+            ctx.count("twice_decorated_inputs");
+            gen::twice_decorated(&mut rng, None, &key).0
+        } else {
+            e
+        };
         let t = tree_of(&e);
         ctx.nontrivial(t.shape_hash());
         let flat = t.flatten();
@@ -158,14 +167,35 @@ pub fn run(ctx: &mut Ctx) {
         if let Ok(c) = Envelope::try_from_cbor_data(env_bytes(&e)) {
             fam.push(("decoded".into(), c));
         }
+        // the same element held as a known value and as a leaf with the known value's CBOR (#6.40000(n)): equal
+        // digests, nothing obscured on either side - identical
+        {
+            let n = *rng.pick(&[0u64, 1, 4, 23, 24, 255, 256, 65536]);
+            let as_kv = Envelope::new(KnownValue::new(n));
+            let as_leaf = Envelope::new(dcbor::CBOR::to_tagged_value(40000u64, n));
+            ctx.count("known_value_and_leaf_twins");
+            fam.push(("twin-kv".into(), e.add_assertion(as_kv.clone(), "twin")));
+            fam.push(("twin-leaf".into(), e.add_assertion(as_leaf.clone(), "twin")));
+            fam.push(("twin-kv-bare".into(), as_kv));
+            fam.push(("twin-leaf-bare".into(), as_leaf));
+        }
+        // identity survives encoding and decoding, for EVERY member of the family
         let k = rng.below(fam.len());
-        if let Ok(c) = Envelope::try_from_cbor_data(env_bytes(&fam[k].1)) {
+        for i in 0..fam.len() {
             ctx.eval();
             ctx.count("decode_preserves_identity");
-            if !c.is_identical_to(&fam[k].1) || !fam[k].1.is_identical_to(&c) {
-                ctx.violation("decode-breaks-identity", "decode(encode(x)) is not identical to x", jhex(&fam[k].1));
+            match trap::guard(|| Envelope::try_from_cbor_data(env_bytes(&fam[i].1))) {
+                Ok(Ok(c)) => {
+                    if !c.is_identical_to(&fam[i].1) || !fam[i].1.is_identical_to(&c) {
+                        ctx.violation("decode-breaks-identity", "decode(encode(x)) is not identical to x", jhex(&fam[i].1));
+                    }
+                    if i == k {
+                        fam.push(("decoded-variant".into(), c));
+                    }
+                }
+                Ok(Err(err)) => ctx.violation("decode-breaks-identity/err", &format!("a family member ({}) does not decode from its own encoding: {}", fam[i].0, err), jhex(&fam[i].1)),
+                Err(p) => ctx.violation(&format!("decode-breaks-identity/panic/{}", p.signature()), &format!("{:?}", p), jhex(&fam[i].1)),
             }
-            fam.push(("decoded-variant".into(), c));
         }
         // unrelated and near-miss (same shape, one more assertion / other leaf)
         let (_m2, other) = universe(&mut rng, crate::gen::GenCfg::small(), case ^ 0xabcdef);
